@@ -31,6 +31,10 @@ CatAll ==
        [] d = "r:wpart:orig"     -> R("wpart", "C", "orig")
        [] d = "r:wpart:absent"   -> R("wpart", "C", "absent")
        [] d = "r:wpart:partnan"  -> R("wpart", "C", "partnan")
+       [] d = "r:wgap:orig"      -> R("wgap", "C", "orig")
+       [] d = "r:wgap:allnan"    -> R("wgap", "C", "allnan")
+       [] d = "r:wgap:absent"    -> R("wgap", "C", "absent")
+       [] d = "r:wgap:x3"        -> R("wgap", "C", "x3")
        [] d = "r:wmonth:orig"    -> R("wmonth", "C", "orig")
        [] d = "r:wweek:orig"     -> R("wweek", "C", "orig")
        [] d = "r:wweek:absent"   -> R("wweek", "C", "absent")
@@ -44,7 +48,7 @@ T_refit == << {"new"}, {"fit"}, {"sweep", "fit"}, {"fit", "sweep"}, {"sweep", "s
 T_store == << {"new"}, {"fit"}, {"sweep"}, {"save"}, {"restart", "load"}, {"load", "sweep"}, {"sweep", "save"}, {"save", "sweep"} >>
 T_pure  == << {"new"}, {"fit"}, {"predict"}, {"predict", "readdf"}, {"predict", "scribble"}, {"predict", "save"} >>
 T_inter == << {"new"}, {"new"}, {"fit"}, {"predict", "fit"}, {"fit", "predict"}, {"predict"} >>
-T_obs   == << {"new"}, {"fit"}, {"predict"}, {"predict"}, {"predict"}, {"predict"} >>
+T_obs   == << {"new"}, {"fit"}, {"predict"}, {"predict"}, {"predict"} >>
 T_warm  == << {"other", "new"}, {"other", "new"}, {"new", "fit"}, {"fit", "other"}, {"fit", "predict"}, {"predict"} >>
 \* every operation allowed at every position: explored by random simulation (tlc -simulate), not exhaustively
 \* (`tlc -simulate` picks uniformly among the successor states, so the first two calls are pinned to get models into play)
